@@ -103,14 +103,14 @@ def _gen_body(rng, mutated):
         return rng.choice(TEXTS + ODD_TEXTS if mutated else TEXTS)
     if r < 0.50:
         return b"".join(rng.choice(TEXTS + ODD_TEXTS if mutated else TEXTS) for _ in range(rng.randint(2, 4)))[:160]
-    if r < 0.62:
+    if r < 0.57:
         # around the is_mostly_bin cut: 99..104 bytes with a multi-byte character straddling offset 100
         n = rng.randint(96, 101)
         tail = rng.choice([b"\xe2\x82\xac", b"\xc3\xa9", b"\xf0\x9f\x98\x80", b"\xe2\x82", b"\x80\x80\x80\x80\x80", b"ab"])
         return b"a" * n + tail + b"z" * rng.randint(0, 3)
     if r < 0.80:
         # ratio around the 0.7 / 0.95 thresholds: k printable bytes, the rest low/high bytes
-        n = rng.choice([10, 20, 40, 100])
+        n = rng.choice([10, 20, 20, 40, 40, 100])
         k = rng.choice([n * 7 // 10 - 1, n * 7 // 10, n * 7 // 10 + 1, n * 19 // 20 - 1, n * 19 // 20, n * 19 // 20 + 1, n // 2, 0])
         k = max(0, min(n, k))
         filler = rng.choice([b"\x00", b"\xc3\xa9", b"\xff", b"\x01", b"\xe9", b"\x0b", b"\x7f"])
@@ -531,24 +531,40 @@ def _url_set(u):
 
 
 # ------------------------------------------------------------------------------------------------ Coq terms
-def _cstr(cps):
-    return clist((cN(c) for c in cps), "N")
+class _Pool:
+    """byte strings / texts longer than a few elements are printed once per case as let-bound variables (coqc spends
+    most of its time elaborating list literals; a body otherwise occurs ~10 times in one case)"""
 
+    def __init__(self):
+        self.b, self.s, self.defs = {}, {}, []
 
-def _cfields(lst):
-    return clist((cpair(cbytes(unhx(k)), cbytes(unhx(v))) for k, v in lst), "(bytes * bytes)")
+    def B(self, b: bytes) -> str:
+        if len(b) <= 4:
+            return cbytes(b)
+        if b not in self.b:
+            # a prefix of an already bound string (is_mostly_bin cut candidates) is printed as firstn
+            for other, name in list(self.b.items()):
+                if len(other) > len(b) >= 90 and other.startswith(b):
+                    self.b[b] = f"(firstn {len(b)} {name})"
+                    break
+            else:
+                name = f"b{len(self.b)}"
+                self.b[b] = name
+                self.defs.append(f"let {name} : bytes := {cbytes(b)} in")
+        return self.b[b]
 
+    def S(self, cps) -> str:
+        cps = tuple(cps)
+        if len(cps) <= 3:
+            return clist((cN(c) for c in cps), "N")
+        if cps not in self.s:
+            name = f"s{len(self.s)}"
+            self.s[cps] = name
+            self.defs.append(f"let {name} : str := {clist((cN(c) for c in cps), 'N')} in")
+        return self.s[cps]
 
-def _cob(h):
-    return "(@None bytes)" if h is None else f"(Some {cbytes(unhx(h))})"
-
-
-def _cval(v):
-    if v[0] == "b":
-        return f"(VB {cbytes(unhx(v[1]))})"
-    if v[0] == "s":
-        return f"(VS {_cstr(v[1])})"
-    return None
+    def wrap(self, term: str) -> str:
+        return "(" + "\n ".join(self.defs) + "\n " + term + ")"
 
 
 def _cres(r, f):
@@ -559,7 +575,32 @@ def _cres(r, f):
 
 
 def coq_case(case, obs):
+    P = _Pool()
+    B = lambda h: P.B(unhx(h))
+    S = P.S
     t = obs["tables"]
+    # bind the long raw bodies first so that cut candidates can refer to them
+    for f in case["flows"]:
+        if f["t"] == "http":
+            for h in (f["rb"], f["resp"]["b"] if f["resp"] else None):
+                if h:
+                    B(h)
+    for x in sorted(t["utf8"], key=lambda x: -len(x[0])):
+        B(x[0])
+
+    def fields(lst):
+        return clist((cpair(B(k), B(v)) for k, v in lst), "(bytes * bytes)")
+
+    def ob(h):
+        return "(@None bytes)" if h is None else f"(Some {B(h)})"
+
+    def val(v):
+        if v[0] == "b":
+            return f"(VB {B(v[1])})"
+        if v[0] == "s":
+            return f"(VS {S(v[1])})"
+        return None
+
     parts = []
 
     def tab(name, items, ty):
@@ -569,19 +610,18 @@ def coq_case(case, obs):
 
     def de(x):
         a, e, r = x
-        rv = _cres(r, _cval)
-        av = _cval(a)
-        return None if rv is None or av is None else f"({av}, {cbytes(unhx(e))}, {rv})"
+        rv, av = _cres(r, val), val(a)
+        return None if rv is None or av is None else f"({av}, {B(e)}, {rv})"
     tab("dec", [de(x) for x in t["dec"]], "(val * bytes * res val)")
     tab("enc", [de(x) for x in t["enc"]], "(val * bytes * res val)")
-    tab("infer", [None if x[2] is None else f"({cbytes(unhx(x[0]))}, {cbytes(unhx(x[1]))}, {cbytes(unhx(x[2]))})" for x in t["infer"]], "(bytes * bytes * bytes)")
-    tab("b64e", [f"({cbytes(unhx(x[0]))}, {_cres(x[1], _cval)})" for x in t["b64e"]], "(bytes * res val)")
-    tab("b64d", [f"({_cstr(x[0])}, {_cres(x[1], _cval)})" for x in t["b64d"]], "(str * res val)")
-    tab("utf8", [f"({cbytes(unhx(x[0]))}, {cbool(x[1])})" for x in t["utf8"]], "(bytes * bool)")
-    tab("decse", [f"({cbytes(unhx(x[0]))}, {_cstr(x[1])})" for x in t["decse"]], "(bytes * str)")
-    tab("encse", [f"({_cstr(x[0])}, {_cres(x[1], _cval)})" for x in t["encse"]], "(str * res val)")
-    tab("url", [f"({_cstr(x[0])}, {_cres(x[1], lambda p: cpair(cbytes(unhx(p[0])), _cstr(p[1])))})" for x in t["url"]], "(str * res (bytes * str))")
-    tab("ctfix", [f"({cbytes(unhx(x[0]))}, {cbytes(unhx(x[1]))})" for x in t["ctfix"]], "(bytes * bytes)")
+    tab("infer", [None if x[2] is None else f"({B(x[0])}, {B(x[1])}, {B(x[2])})" for x in t["infer"]], "(bytes * bytes * bytes)")
+    tab("b64e", [f"({B(x[0])}, {_cres(x[1], val)})" for x in t["b64e"]], "(bytes * res val)")
+    tab("b64d", [f"({S(x[0])}, {_cres(x[1], val)})" for x in t["b64d"]], "(str * res val)")
+    tab("utf8", [f"({B(x[0])}, {cbool(x[1])})" for x in t["utf8"]], "(bytes * bool)")
+    tab("decse", [f"({B(x[0])}, {S(x[1])})" for x in t["decse"]], "(bytes * str)")
+    tab("encse", [f"({S(x[0])}, {_cres(x[1], val)})" for x in t["encse"]], "(str * res val)")
+    tab("url", [f"({S(x[0])}, {_cres(x[1], lambda p: cpair(B(p[0]), S(p[1])))})" for x in t["url"]], "(str * res (bytes * str))")
+    tab("ctfix", [f"({B(x[0])}, {B(x[1])})" for x in t["ctfix"]], "(bytes * bytes)")
     tables = "(mkTables " + " ".join(parts) + ")"
 
     flows = []
@@ -591,24 +631,24 @@ def coq_case(case, obs):
             continue
         r = f["resp"]
         resp = "(@None response)" if r is None else \
-            f"(Some (mkResponse {cN(r['status'])} {cbytes(r['ver'].encode())} {_cfields(r['h'])} {_cob(r['b'])}))"
-        flows.append(f"(HttpFlow (mkRequest {cbytes(f['method'].encode())} {_cstr(pu)} {cbytes(f['ver'].encode())} "
-                     f"{_cfields(f['rh'])} {_cob(f['rb'])}) {resp})")
+            f"(Some (mkResponse {cN(r['status'])} {P.B(r['ver'].encode())} {fields(r['h'])} {ob(r['b'])}))"
+        flows.append(f"(HttpFlow (mkRequest {P.B(f['method'].encode())} {S(pu)} {P.B(f['ver'].encode())} "
+                     f"{fields(f['rh'])} {ob(f['rb'])}) {resp})")
+    if obs["export_error"] is not None:
+        return P.wrap(f"ExportCrash {tables} {clist(flows, 'flow')}")
     ents = []
     for e in obs["entries"]:
         post = "(@None (option str))" if e["post"] is None else \
-            ("(Some (@None str))" if e["post"]["text"] is None else f"(Some (Some {_cstr(e['post']['text'])}))")
-        ctext = "(@None str)" if e["ctext"] is None else f"(Some {_cstr(e['ctext'])})"
-        ents.append(f"(mkEntry {cbytes(unhx(e['method']))} {_cstr(e['url'])} {cbytes(unhx(e['rver']))} {_cfields(e['rh'])} {post} "
-                    f"{cN(e['status'])} {cbytes(unhx(e['sver']))} {_cfields(e['sh'])} {ctext} {_cob(e['enc'])})")
+            ("(Some (@None str))" if e["post"]["text"] is None else f"(Some (Some {S(e['post']['text'])}))")
+        ctext = "(@None str)" if e["ctext"] is None else f"(Some {S(e['ctext'])})"
+        ents.append(f"(mkEntry {B(e['method'])} {S(e['url'])} {B(e['rver'])} {fields(e['rh'])} {post} "
+                    f"{cN(e['status'])} {B(e['sver'])} {fields(e['sh'])} {ctext} {ob(e['enc'])})")
     imps = []
     for i in obs["imp"]:
-        imps.append(f"(mkIflow {cbytes(unhx(i['method']))} {_cstr(i['url'])} {cbytes(unhx(i['ver']))} {_cfields(i['rh'])} {_cob(i['rb'])} "
-                    f"{cN(i['status'])} {cbytes(unhx(i['sver']))} {_cfields(i['sh'])} {_cob(i['sb'])})")
-    if obs["export_error"] is not None:
-        return f"ExportCrash {tables} {clist(flows, 'flow')}"
-    return (f"Case {cbool(obs['hdr_se'])} {tables} {clist(flows, 'flow')} {clist(ents, 'entry')} "
-            f"{clist(imps, 'iflow')} {cbool(obs['imp_failed'])}")
+        imps.append(f"(mkIflow {B(i['method'])} {S(i['url'])} {B(i['ver'])} {fields(i['rh'])} {ob(i['rb'])} "
+                    f"{cN(i['status'])} {B(i['sver'])} {fields(i['sh'])} {ob(i['sb'])})")
+    return P.wrap(f"Case {cbool(obs['hdr_se'])} {tables} {clist(flows, 'flow')} {clist(ents, 'entry')} "
+                  f"{clist(imps, 'iflow')} {cbool(obs['imp_failed'])}")
 
 
 # ------------------------------------------------------------------------------------------------ oracle
